@@ -61,6 +61,20 @@ def repl_oracle(script, impl):
     return probs
 
 
+def repl_ro_oracle(script, impl):
+    """C16 seen end to end: a client write sent to a replica's engine is refused - while replication runs and after it was
+    stopped (the node stays a replica)"""
+    probs = []
+    for ws, out in _ops(script, impl):
+        if ws[0] == 'clientput' and out != 'clientput refused':
+            probs.append('client-write-on-replica: %s -> %s (a replica refuses client writes, also after its replication was stopped)' % (' '.join(ws)[:60], out[:60]))
+    return probs
+
+
+def repl_ro_nontrivial(script, impl):
+    return any(l.startswith('clientput') for l in script) and any((i or '').startswith('converged') for i in impl)
+
+
 def repl_once_oracle(script, impl):
     """C13 seen end to end: within one run of a replica's process the operations handed to its engine are a subsequence of the
     primary's log per key - each at most once, in log order (the harness keeps both lists; `applylog=` on every await)."""
